@@ -156,4 +156,20 @@ CLAIMS = {
         'not_decided': 'equality of the loaded state with a model folded over the complete lines for all byte prefixes; '
                        'buffer arithmetic inside LineReader.',
     },
+    'C09': {
+        'design': '5.9',
+        'technique': 'fact-driven interval bounds on file-derived values (taint/bounds) + path-sensitive EOF/truncate discipline + writer/reader layout agreement + must-precede (flush before memory) + skip-exactness over clang CFG facts',
+        'decides': 'every file-derived value used in DepsLog::Load as subscript, allocation count or read size is '
+                   'bounded on both sides on every path (ids in [0, nodes_.size()), record words inside the record, '
+                   'count >= 0, reads <= sizeof(buf)); a short read or malformed record reaches success only through '
+                   'Truncate(path, offset) or with ftell == offset; offset advances last and never after a failure; '
+                   'checksum/duplicate-id mismatches are rejected; the word layout written by RecordDeps/RecordId '
+                   '(kind bit, id, mtime low/high, ids; path, padding <= 3, complement checksum) agrees with what '
+                   'Load reads; oversized records are refused before any write and the stdio buffer holds a whole '
+                   'record; all fwrites precede one fflush and memory is updated only after it succeeded; the '
+                   '"unchanged" shortcut compares mtime, count and every element (no unscaled memcmp); recompaction '
+                   'removes a stale temp, resets all ids, drops only empty/non-live entries, swaps, then replaces.',
+        'not_decided': '"exactly the complete records" for all byte strings; cross-session id consistency as a '
+                       'run-time invariant; padding arithmetic values.',
+    },
 }
